@@ -583,7 +583,16 @@ func (s *Server) Signers() ([]ssh.Signer, error) {
 	if err != nil {
 		return nil, err
 	}
+	// The underlying agent has just been listed a second time. Only identities that passed the filter
+	// above are handed out: another client of that agent may have added a certificate in between.
+	filtered := make(map[hashcode]struct{}, len(keysInAgent))
+	for _, key := range keysInAgent {
+		filtered[hash(key.Marshal())] = struct{}{}
+	}
 	for _, signer := range uss {
+		if _, ok := filtered[hash(signer.PublicKey().Marshal())]; !ok {
+			continue
+		}
 		// The signer signs over the connection shared by all clients of the shim agent.
 		signer = lockedSigner{signer, &s.mu}
 		if !s.noUpstreamSSHCACert {
